@@ -6,7 +6,8 @@ use duckscript::runner;
 use duckscript::types::runtime::Context;
 use serde_json::{json, Value};
 
-const PIECES: [&str; 16] = ["a", "b", "B", "é", "日", " ", "  ", "\t", "ab", "-", ",", "aa", "É", "À", "Σ", "ß"];
+// (pieces that spell a falsy text when put together: a result must not depend on what the text happens to mean)
+const PIECES: [&str; 25] = ["a", "b", "B", "é", "日", " ", "  ", "\t", "ab", "-", ",", "aa", "É", "À", "Σ", "ß", "fal", "se", "0", "n", "o", "N", "O", "false", "no"];
 // includes values that differ by less than any "tolerance" a comparison might be tempted to use
 const NUMS: [&str; 30] = ["0", "1", "-1", "2", "10", "9", "16777216", "16777217", "1700000001000", "1700000000000", "-100000000", "-100000001",
     "0.3", "0.300000001", "1e3", "1000", "-0", "007", "3.0", "3", "x", "",
